@@ -1,5 +1,6 @@
 /-
-  Proof/MultiChanInv.lean — the invariant of the multi channel model used for the lost-wake-up
+  Proof/MultiChanInv.lean — the invariant of the multi channel model, ONE-LIST discipline
+  (`St.two = false`, the code before /repo commit b18179b), used for the lost-wake-up
   analysis (property C11): lock discipline, the waiter list, and the two "somebody is active"
   invariants that hold as long as the waiter list is homogeneous.
 -/
@@ -174,7 +175,7 @@ structure Inv (s : St) : Prop where
   actR : s.everS = false → s.wl ≠ [] → s.high > s.low → ∃ g, (s.pc g).witR (s.woken g) = true
   actS : s.everR = false → s.wl ≠ [] → s.high - s.low < s.cap → ∃ g, (s.pc g).witS (s.woken g) = true
 
-theorem inv_init (cap : Nat) : Inv (init cap) := by
+theorem inv_init (cap : Nat) : Inv (init false cap) := by
   constructor <;> simp [init, Pc.inCS, Pc.wakingOf, Pc.waitOp, Pc.listedOp, headW, ChainW]
 
 /-- closes one conjunct of `Inv s'` for an explicit successor record -/
